@@ -147,6 +147,46 @@ def lexStringList (t : Str) : Option (List Str) := lexStringListF (t.length + 1)
 def compileStringList (t : Str) : Option (Except PyExc Str) :=
   (lexStringList t).map stringValueList
 
+/-- tokens of an array initializer of strings -/
+inductive ATok where
+  | str (t : Str)
+  | comma
+  deriving Repr, DecidableEq
+
+/-- a text consisting of string tokens, commas and white space -> tokens (fuelled like `lexStringListF`) -/
+def lexArrayF : Nat → Str → Option (List ATok)
+  | 0, _ => none
+  | _ + 1, [] => some []
+  | f + 1, c :: cs =>
+    if isWs c then lexArrayF f cs
+    else if c = 44 then (lexArrayF f cs).map (ATok.comma :: ·)
+    else if c = 34 then
+      match scanBody 34 cs with
+      | none => none
+      | some r => (lexArrayF f r.2).map (ATok.str (34 :: r.1 ++ [34]) :: ·)
+    else none
+
+def lexArray (t : Str) : Option (List ATok) := lexArrayF (t.length + 1) t
+
+/-- mirrors p_constantValueList with stringValueList items: the string tokens between commas form one item;
+    an empty item is a syntax error (`none`); `cur` = tokens of the item being collected -/
+def groupToks : List ATok → List Str → Option (List (List Str))
+  | [], cur => if cur = [] then none else some [cur]
+  | .str t :: ts, cur => groupToks ts (cur ++ [t])
+  | .comma :: ts, cur => if cur = [] then none else (groupToks ts []).map (cur :: ·)
+
+/-- every item through p_stringValueList -/
+def stringValueLists : List (List Str) → Except PyExc (List Str)
+  | [] => .ok []
+  | g :: gs =>
+    match stringValueList g with
+    | .error e => .error e
+    | .ok a => (stringValueLists gs).map (a :: ·)
+
+/-- lexer + parser on the inside of `{ ... }` of a string array initializer: `none` = not in the language -/
+def compileStringArray (t : Str) : Option (Except PyExc (List Str)) :=
+  ((lexArray t).bind (fun ts => groupToks ts [])).map stringValueLists
+
 /-- mirrors _mof_compiler.py: charValue as used by p_constantValue: the token text is passed on
     *unchanged* (quotes and escape sequences included) — known finding C08-F1 -/
 def charConstantValue (tok : Str) : Str := tok
